@@ -5,7 +5,7 @@ import os
 from facts import walk, render, role, is_call, AnalysisBroken, VERIF
 from engines import ff, nth_arg, receiver, unwrap_defarg, nonnull_facts
 import tables
-from formula import Poly, Reducer, chain_topdown, chain_bottomup, restrict_exponent_one
+from formula import Poly, Reducer, param_index, chain_topdown, chain_bottomup, restrict_exponent_one
 
 LEVEL = ('(T) the constant tables behind units (standard units -> base exponents, log10 scales, prefixes, enum spellings) are read from their initialisers and compared value by value with the SI definitions '
          '(independent oracle sa/tables/si.json) and with each other; (M) the three reducers that compute scale and base exponents (units.cpp, validator.cpp, analyser.cpp) are abstracted from the AST into polynomials '
@@ -105,12 +105,12 @@ def run(F, rep):
     fum = F.fn1('libcellml::updateUnitsMap', file='units.cpp')
 
     # --- units.cpp (bottom-up)
-    U = Reducer(F, fu, {1: 'd'})
+    U = Reducer(F, fu, {('int', 0): 'd'})
     recs = U.recursive_calls()
     in_loop = [r for r in recs if U.in_loop(r)]
     if len(in_loop) != 1:
         raise AnalysisBroken('updateUnitMultiplier: %d recursive calls in the child loop, 1 confirmed' % len(in_loop))
-    acc_arg = nth_arg(in_loop[0], 2)
+    acc_arg = U.rec_arg(in_loop[0], param_index(fu, 'double &', 0))
     if acc_arg is None or acc_arg.get('k') != 'Ref' or acc_arg.get('dk') != 'local':
         raise AnalysisBroken('updateUnitMultiplier: the recursive call does not use a local accumulator any more')
     U.param_roles[acc_arg['d']] = 'B'
@@ -145,14 +145,14 @@ def run(F, rep):
     totalU = chain_bottomup(pu_leaf, pu_nest)
 
     # --- validator (top-down)
-    V = Reducer(F, fv, {4: 'E', 5: 'L', 6: 'd'})
+    V = Reducer(F, fv, {('double', 0): 'E', ('double', 1): 'L', ('int', 0): 'd'})
     macc = V.accumulations(lambda t: t.get('k') == 'Ref' and t.get('dk') == 'parm' and t.get('d') == fv.params[2]['d'])
     leafV = [a for a in macc if V.branch_of(a) == 'std']
     recV = [r for r in V.recursive_calls() if V.in_loop(r)]
     if len(leafV) != 1 or len(recV) != 1:
         raise AnalysisBroken('updateBaseUnitCount: %d leaf accumulation(s), %d recursive call(s) in the loop' % (len(leafV), len(recV)))
     pv_leaf = V.ev(leafV[0]['c'][1])
-    pv_E, pv_L = V.ev(nth_arg(recV[0], 4)), V.ev(nth_arg(recV[0], 5))
+    pv_E, pv_L = V.ev(nth_arg(recV[0], V.role_index['E'])), V.ev(nth_arg(recV[0], V.role_index['L']))
     totalV = chain_topdown(pv_leaf, pv_E, pv_L)
     mapaccV = [a for a in V.accumulations(lambda t: t.get('k') == 'Call' and t.get('fn') in ('at', 'operator[]')) if V.branch_of(a) == 'std']
     if len(mapaccV) != 1:
@@ -161,14 +161,14 @@ def run(F, rep):
     mapV = chain_topdown(pvm_leaf, pv_E, pv_L)
 
     # --- analyser multiplier (top-down)
-    A = Reducer(F, fa, {3: 'E', 4: 'L'})
+    A = Reducer(F, fa, {('double', 0): 'E', ('double', 1): 'L'})
     macc = A.accumulations(lambda t: t.get('k') == 'Ref' and t.get('dk') == 'parm' and t.get('d') == fa.params[2]['d'])
     leafA = [a for a in macc if A.branch_of(a) == 'std']
     recA = [r for r in A.recursive_calls() if A.in_loop(r)]
     if len(leafA) != 1 or len(recA) != 1:
         raise AnalysisBroken('updateUnitsMultiplier: %d leaf accumulation(s), %d recursive call(s)' % (len(leafA), len(recA)))
     pa_leaf = A.ev(leafA[0]['c'][1])
-    pa_E, pa_L = A.ev(nth_arg(recA[0], 3)), A.ev(nth_arg(recA[0], 4))
+    pa_E, pa_L = A.ev(nth_arg(recA[0], A.role_index['E'])), A.ev(nth_arg(recA[0], A.role_index['L']))
     totalA = chain_topdown(pa_leaf, pa_E, pa_L)
 
     ref_total = restrict_exponent_one(totalU)
@@ -188,8 +188,9 @@ def run(F, rep):
     # --- exponent maps
     bexp = Poly.sym('b') * e1 * e2 * e3
     rep.check(mapV == bexp, 'C08.M2', 'validator.cpp|updateBaseUnitCount|%s' % mapV, fv.where(mapaccV[0]), 'base exponents computed as `%s`, expected `%s`' % (mapV, bexp), 'b*e1*e2*e3')
-    for name, f_, eidx in (('analyser.cpp|updateUnitsMap', fam, 4), ('units.cpp|updateUnitsMap', fum, 2)):
-        R = Reducer(F, f_, {eidx: 'E'} if f_ is fum else {4: 'E', 5: 'L'})
+    for name, f_ in (('analyser.cpp|updateUnitsMap', fam), ('units.cpp|updateUnitsMap', fum)):
+        R = Reducer(F, f_, {('double', 0): 'E'} if f_ is fum else {('double', 0): 'E', ('double', 1): 'L'})
+        eidx = R.role_index['E']
         helper_calls = [n for n in f_.walk() if n.get('k') == 'Call' and n.get('fn') == 'updateUnitsMapWithStandardUnit' and R.in_loop(n) and R.branch_of(n) == 'std']
         recs_ = [r for r in R.recursive_calls() if R.in_loop(r)]
         if len(helper_calls) != 1 or len(recs_) != 1:
@@ -215,7 +216,7 @@ def run(F, rep):
             pn = hf.params[2]['n']
             ok = ok or txt in ('baseUnitsComponent.second * %s' % pn, '%s * baseUnitsComponent.second' % pn) or (txt.endswith('.second * ' + pn))
         rep.check(ok, 'C08.M2', 'updateUnitsMapWithStandardUnit@%s' % hf.file.split('/')[-1], hf.where(), 'helper accumulates %s' % [render(n) for n in acc], 'adds base exponent * exp')
-    for name, f_, R_, recs_, eidx in (('validator.cpp|updateBaseUnitCount', fv, V, V.recursive_calls(), 4), ('analyser.cpp|updateUnitsMultiplier', fa, A, A.recursive_calls(), 3), ('units.cpp|updateUnitMultiplier', fu, U, [], 0)):
+    for name, f_, R_, recs_, eidx in (('validator.cpp|updateBaseUnitCount', fv, V, V.recursive_calls(), V.role_index['E']), ('analyser.cpp|updateUnitsMultiplier', fa, A, A.recursive_calls(), A.role_index['E']), ('units.cpp|updateUnitMultiplier', fu, U, [], 0)):
         for r in recs_:
             p = R_.ev(nth_arg(r, eidx))
             carries = all('E' in k for k in p.t) and bool(p.t)
